@@ -51,7 +51,26 @@ class RtWorld:
         sc3.init('rt', 'INFO', True)
         import sc3.base.main as sm
         self.main = sm.main
+        if self.knobs.get('line_mean') and not self.knobs.get('line_manual'):
+            self.enable_line_preemption()
         return self
+
+    def enable_line_preemption(self):
+        """LINE-level pre-emption (sys.monitoring) inside the library's time
+        keeping and dispatch code for every simulated thread of this run:
+        reaches interleavings between two synchronisation points (unguarded
+        reads of main.current_tt, _in_awake_call, ...)."""
+        import sc3.base.main as sm
+        import sc3.base.clock as sclk
+        import sc3.base.stream as sstm
+        import sc3.base._oscinterface as sosc
+        import sc3.base.responders as srpd
+        k = self.kernel
+        k.enable_monitoring(preempt_codes=K.code_objects(
+            sm, sclk, sstm, sosc, srpd))
+        shims._CTX['line_preempt_all'] = True
+        for t in k.threads:
+            t.line_preempt = True
 
     # thread roles by (deterministic) name
     def thread_by_name(self, prefix):
